@@ -114,6 +114,7 @@ void mt_lib_start(mt_case * c, mt_engine_cfg * e, size_t def_stack) {
           e->mode == MV_NOISE ? "noise" : "controlled", e->tail_preempt, c->sched_len, c->seed);
   cr_b8 = c->cfg.n > 8 ? c->cfg.p[8] : 0; cr_b9 = c->cfg.n > 9 ? c->cfg.p[9] : 0;
   if (c->gen < 1) cr_b8 = cr_b9 = 0;
+  if (((cr_b8 >> 5) & 7) >= 4) mt_desc("created threads carry %d bytes of custom data (work-stealing hint) in their attribute\n", (int[]){ 12, 28, 256, 8 }[((cr_b8 >> 5) & 7) - 4]);
   if ((cr_b8 & 1) || (cr_b9 & 7) >= 3) { mt_desc("thread creation: %s%s\n", (cr_b8 & 1) ? "flavours rotate (NULL attribute, attribute object, parent-first, parent-first + 70000-byte stack, 70000-byte stack)" : "NULL attribute", (const char *[]){ "", "", "", "; created threads run with cancellation disabled and a request pending", "; every other created thread runs with cancellation disabled", "; created threads run with cancellation disabled", "; every other created thread has a deferred cancellation request pending", "; every created thread has a deferred cancellation request pending" }[cr_b9 & 7]); mt_hash_u(((uint64_t)cr_b8 << 8) | cr_b9); }
   int prelude = mt_allow_prelude && c->gen >= 1 && c->cfg.n >= 8 && (c->cfg.p[5] & 8) && (c->cfg.p[5] & 7);
   if (prelude) mt_desc("prelude: %d steps of unrelated library use before the program (kinds %02x, args %02x: detached / detach / join threads, custom stacks, keys)\n", c->cfg.p[5] & 7, c->cfg.p[6], c->cfg.p[7]);
@@ -179,15 +180,32 @@ static void mt_prelude(mt_case * c) {
 }
 
 /* ---------------- creation flavours ---------------- */
-typedef struct { myth_func_t fn; void * arg; int cancel; } cr_t;
+void mt_cd_attach(myth_thread_attr_t * at, size_t size);
+void mt_cd_verify(size_t size, const char * when);
+typedef struct { myth_func_t fn; void * arg; int cancel; size_t cd; } cr_t;
+static unsigned char cd_pattern[256]; static long cr_cd;
+static void cd_check(size_t want, const char * when) {
+  size_t sz = myth_wsapi_get_hint_size(0); unsigned char * p = myth_wsapi_get_hint_ptr(0);
+  if (sz != want || !p) mt_fail("custom data of a thread created with %zu bytes of it: size %zu, pointer %p (%s)", want, sz, (void *)p, when);
+  for (size_t i = 0; i < want; i++) if (p[i] != cd_pattern[i]) mt_fail("custom data (work-stealing hint, %zu bytes, copied to the top of the thread's stack at creation) differs at byte %zu %s: got %02x expected %02x", want, i, when, p[i], cd_pattern[i]);
+}
 static cr_t cr_pool[8192]; static volatile int cr_n; static long cr_stat[6], cr_disabled;
 static void * cr_tramp(void * p) {
   cr_t * c = p;
   /* cancellation is deferred: a pending request must stay invisible to a thread that never calls myth_testcancel */
   if (c->cancel & 2) { int old = -1; if (myth_setcancelstate(PTHREAD_CANCEL_DISABLE, &old) != 0 || old != PTHREAD_CANCEL_ENABLE) mt_fail("myth_setcancelstate(DISABLE) in a new thread: returned an error or the old state was not ENABLE (%d)", old); }
   if (c->cancel & 1) myth_cancel(myth_self());
-  return c->fn(c->arg);
+  if (c->cd) cd_check(c->cd, "when the thread starts");
+  void * rv = c->fn(c->arg);
+  if (c->cd) cd_check(c->cd, "when the thread function returns (the thread's own frames, or another stack, overlap it)");
+  return rv;
 }
+void mt_cd_attach(myth_thread_attr_t * at, size_t size) {
+  if (!cd_pattern[1]) for (int i = 0; i < 256; i++) cd_pattern[i] = (unsigned char)(i * 7 + 3);
+  if (size > 256) size = 256;
+  at->custom_data = size ? cd_pattern : 0; at->custom_data_size = size; if (size) cr_cd++;
+}
+void mt_cd_verify(size_t size, const char * when) { if (size) cd_check(size > 256 ? 256 : size, when); }
 int mt_create(myth_thread_t * id, myth_func_t fn, void * arg) {
   int k = __sync_fetch_and_add(&cr_n, 1);
   int flavour = (cr_b8 & 1) ? (int)(((cr_b8 >> 1) + (unsigned)k) % 5) : 0;
@@ -200,13 +218,19 @@ int mt_create(myth_thread_t * id, myth_func_t fn, void * arg) {
     if (flavour == 2 || flavour == 3) at.child_first = 0;
     if (flavour >= 3) myth_thread_attr_setstacksize(&at, 70000);
   }
+  size_t cd = ((cr_b8 >> 5) & 7) >= 4 ? (size_t[]){ 12, 28, 256, 8 }[((cr_b8 >> 5) & 7) - 4] : 0;
+  if (cd && k < 8192) {
+    if (!ap) { myth_thread_attr_init(&at); ap = &at; }
+    if (!cd_pattern[1]) for (int i = 0; i < 256; i++) cd_pattern[i] = (unsigned char)(i * 7 + 3);
+    at.custom_data = cd_pattern; at.custom_data_size = cd; cr_cd++;
+  } else cd = 0;
   cr_stat[flavour]++; if (cancel & 1) cr_stat[5]++; if (cancel & 2) cr_disabled++;
-  if (cancel && k < 8192) { cr_pool[k].fn = fn; cr_pool[k].arg = arg; cr_pool[k].cancel = cancel; return myth_create_ex(id, ap, cr_tramp, &cr_pool[k]); }
+  if ((cancel || cd) && k < 8192) { cr_pool[k].fn = fn; cr_pool[k].arg = arg; cr_pool[k].cancel = cancel; cr_pool[k].cd = cd; return myth_create_ex(id, ap, cr_tramp, &cr_pool[k]); }
   return myth_create_ex(id, ap, fn, arg);
 }
 
 void mt_lib_finish(void) {
-  if (cr_stat[1] + cr_stat[2] + cr_stat[3] + cr_stat[4]) mt_label("creation_flavours"); if (cr_stat[2] + cr_stat[3]) mt_label("parent_first_creation"); if (cr_stat[5]) mt_label("pending_cancel_request"); if (cr_disabled) mt_label("cancel_disabled_threads");
+  if (cr_stat[1] + cr_stat[2] + cr_stat[3] + cr_stat[4]) mt_label("creation_flavours"); if (cr_stat[2] + cr_stat[3]) mt_label("parent_first_creation"); if (cr_stat[5]) mt_label("pending_cancel_request"); if (cr_disabled) mt_label("cancel_disabled_threads"); if (cr_cd) mt_label("custom_data_attribute");
   mv_finished();
   mv_disable();
 }
